@@ -143,7 +143,7 @@ func run(r *simkit.Run) {
 		}
 		cfg.Mining = mining.Policy{
 			BlockMinWeight:    uint32([]int{0, 2000, 400000}[c.Intn(3, "min-weight")]),
-			BlockMaxWeight:    uint32([]int{4000000 - 4000, 3000000, 6000, 1200 + c.Intn(6000, "max-weight-fine"), 1200 + c.Intn(2500, "max-weight-finer")}[c.Intn(5, "max-weight")]),
+			BlockMaxWeight:    uint32([]int{4000000 - 4000, 3000000, 6000, 1200 + c.Intn(6000, "max-weight-fine"), 1200 + c.Intn(2500, "max-weight-finer"), 9000 + c.Intn(20000, "max-weight-mid")}[c.Intn(6, "max-weight")]),
 			BlockMinSize:      0,
 			BlockMaxSize:      uint32([]int{1000000 - 1000, 750000}[c.Intn(2, "max-size")]),
 			BlockPrioritySize: uint32([]int{0, 50000, 2000}[c.Intn(3, "prio-size")]),
@@ -302,6 +302,10 @@ func run(r *simkit.Run) {
 		switch prof {
 		case "consensus", "selection", "utxo", "crash":
 			wBurst = 3
+		case "votes":
+			// (branches on either side of a window boundary can be in
+			// different deployment states)
+			wBurst = 2
 		}
 		if cfg.Prune != 0 {
 			wBurst = 0 // (forks stay shallow on a pruned node)
@@ -370,7 +374,26 @@ func run(r *simkit.Run) {
 			s.CloneCompare(c.Bool(500, "clone-flush-first"))
 		case 14: // submit a new transaction
 			var t *MTx
-			switch k := simkit.Pick(c, "ptx-kind", 50, 25, 15, 10, 8, 5, 2, 2, 3); k {
+			switch k := simkit.Pick(c, "ptx-kind", 50, 25, 15, 10, 8, 5, 2, 2, 3, 3); k {
+			case 9:
+				// many witness transactions, then a template: the weight of
+				// every one of them (marker, flag, witness) counts
+				s.preferWitness = true
+				nw := 0
+				for j := 0; j < 16; j++ {
+					if t := s.buildPoolTx(0); t != nil {
+						s.Submit(t, 0)
+						nw++
+					}
+				}
+				s.preferWitness = false
+				nw += s.witnessFan(simkit.Range(c, 8, 56, "wit-fan"))
+				if nw > 0 {
+					r.Probe("witness-transaction-burst")
+					s.CheckPool("submit")
+					s.CheckTemplate()
+				}
+				continue
 			case 8:
 				s.disconnectScenario()
 				continue
